@@ -20,6 +20,8 @@ func init() {
 }
 
 func runC08(r *Run, p *Prog) {
+	// B8: oneway passes through the stubs unchanged only if every reply path of the library, including the standard error replies the generated dispatcher uses, is silent for a oneway call
+	siblingRules(r, p, "C01", []string{"R2"}, "B8")
 	m, why := buildIDLModel(p)
 	if m == nil {
 		r.Unresolved("B1", why)
@@ -336,6 +338,30 @@ func runC08(r *Run, p *Prog) {
 		if n < 3 {
 			r.Ob("B6", root, "the template emits the three standard replies", w.funcs[root].Pos(), false, fmt.Sprintf("%d found", n))
 		}
+	})
+	// ---- B9: the two generated sides of an error agree: the emitted client-side mapping gives up the typed error when
+	// the error frame carries no parameters, so the emitted error-reply helper must always send a parameters value
+	r.Guard("B9", func() {
+		guard := regexp.MustCompile(`(\w+) := e\.Parameters\.\(\*json\.RawMessage\)[\s\S]*?if (\w+) == nil \{\s*return e\s*\}`)
+		call := regexp.MustCompile(`\.ReplyError\(([^()]*)\)`)
+		needs := false
+		for _, fr := range w.Segs {
+			if m := guard.FindStringSubmatch(fr.Text); m != nil && m[1] == m[2] {
+				needs = true
+			}
+		}
+		n := 0
+		for _, fr := range w.Segs {
+			for _, m := range call.FindAllStringSubmatch(fr.Text, -1) {
+				args := strings.Split(m[1], ",")
+				last := strings.TrimSpace(args[len(args)-1])
+				n++
+				r.Ob("B9", fr.Fn, "emitted error reply passes a parameters value (`"+strings.ReplaceAll(strings.TrimSpace(m[0]), "\x00", "…")+"`)", fr.Pos, !(needs && last == "nil"),
+					"the emitted helper sends the error without parameters, but the emitted client-side mapping returns the generic *varlink.Error when an error frame carries none: the typed error of a field-less error never reaches the caller")
+			}
+		}
+		r.Stat("B9_client_mapping_requires_parameters", map[bool]int{false: 0, true: 1}[needs])
+		r.Floor("B9", 1)
 	})
 	// ---- B7: the library primitives the stubs delegate flag handling to (re-evaluated from C03/C11): a fresh reply value
 	// per receive and the continues mapping
